@@ -624,6 +624,9 @@ fn client_handler<State>(
 
                 handler.cors.set_headers(&mut response.headers);
 
+                // Set HTTP version
+                response.version = request.version.clone();
+
                 response
             }
             Ok(request) => {
